@@ -1298,3 +1298,20 @@ PROPS["C01"]["partial_gap"] = PROPS["C01"]["partial_gap"].replace(
     '(C01_prompt_monitor_sound; hypotheses: total applications, strictly increasing poll times in range). Outside Coq remain the link model <-> Rust '
     '(differential testing) and the hook-based inputs of the monitor (state name, GAP phase, ScanAwaitResponse, pending status request read from the '
     'fingerprint).')
+# ---- agent fr: ring-view monitor of C11 (coq/Model/FdlRing.v) and its soundness (coq/Proofs/FdlRingSound.v) ----
+PROPS["C11"]["level_note"] += (' Ring-view monitor (coq/Model/FdlRing.v: rmonitor / ring_poll, rule P11_removal_passes_to_next, run by '
+    "ocaml/run_fdl.ml on the implementation's transcripts next to FdlOracle.monitor): in a poll that starts in CheckTokenPass, consumes nothing and "
+    'transmits a token of the station whose destination is not the previous NS, the destination must be the cyclic successor of the station in the '
+    'previous list of active stations without that NS (the station itself when nobody is left) - WHERE the token goes after the removal of the '
+    'silent successor, which the rules of FdlOracle.v (WHEN it may be removed) do not check. Its soundness is proved (Proofs/FdlRingSound.v): '
+    'C11_ring_monitor_step_sound - one step, ALL station states / times / inputs / applications with only r_ts (f_ring f) = ts f (a conjunct of '
+    'Rep; C11_ring_monitor_step_sound_rep states it under Rep): whenever a poll of the model returns, ring_poll (ts f) (view_of f) (poll_event ...) = [] '
+    '(heart: clearing a LAS bit filters the ascending list of active stations - for every length of the bit list - and the NS that remove_station '
+    'computes is next_of over that list, literally the monitor\'s next_after_removal; a poll in CheckTokenPass transmits only when the slot timer '
+    'has run out, to the NS after the removal on the third attempt and to the unchanged NS before); C11_ring_monitor_sound - rmonitor p '
+    '(model_transcript A ops p apps ins) = [] for ALL parameters (the monitor only runs for builder-valid ones), total applications and all '
+    'admissible input histories (ins_ok; neither builder_valid nor app_sends_data is a hypothesis), by induction over the transcript with Rep as '
+    'invariant; C11_ring_monitor_example (computed): station 7 with ring view {2, 7, 15} in CheckTokenPass(Third) removes 15 and transmits the token '
+    '7 -> 2, which the rule accepts, while it rejects the same event with 7 -> 7 (remove_station without the wrap-around).')
+PROPS["C11"]["partial_gap"] += (' Ring-view monitor P11_removal_passes_to_next: sound on model transcripts without exclusions '
+    '(C11_ring_monitor_sound).')
